@@ -23,31 +23,32 @@ import (
 )
 
 type Engine struct {
-	repoDir    string
-	verifDir   string
-	gomodcache string
-	goroot     string
-	modPath    string
-	tier       string
-	seed       int64
-	prog       *ssa.Program
-	pkgs       []*packages.Package
-	ssaPkgs    []*ssa.Package
-	sizes      types.Sizes
-	stats      *Stats
-	maxVisits  int
-	maxSteps   int
-	unwind     int
-	forkMinMax bool
-	crossCheck bool
-	workers    int
-	overlay    map[string][]byte
-	verbose    bool
-	noAccel    bool
-	noIfConv   bool
-	noSlice    bool
-	noGuess    bool
-	ifConvInts bool
+	repoDir        string
+	verifDir       string
+	gomodcache     string
+	goroot         string
+	modPath        string
+	tier           string
+	seed           int64
+	prog           *ssa.Program
+	pkgs           []*packages.Package
+	ssaPkgs        []*ssa.Package
+	sizes          types.Sizes
+	stats          *Stats
+	maxVisits      int
+	maxSteps       int
+	unwind         int
+	forkMinMax     bool
+	crossCheck     bool
+	workers        int
+	overlay        map[string][]byte
+	verbose        bool
+	noAccel        bool
+	noIfConv       bool
+	noSlice        bool
+	noGuess        bool
+	ifConvInts     bool
+	concreteCopies bool
 
 	mu          sync.Mutex
 	bounds      map[string]int64
